@@ -304,7 +304,7 @@ func splitAttempts(setup [][]string) int {
 func (c *Ctx) ipCase(o ipOpt, reject bool, f ipFault, public bool) {
 	run := runConn(o, reject, f, public)
 	k := splitAttempts(run.setup)
-	if f.kind == "x" && f.at >= 0 && f.at <= len(run.setup) {
+	if f.kind == "x" && f.at >= 0 && f.at < len(run.setup) { // the drop hit a setup command (not the user command after them)
 		// a dropped connection: DoMulti's abort path hands the SAME transport error to every member of
 		// the pipelined batch, also to those whose replies had arrived (pipe.go syncDoMulti `abort:`)
 		lo, hi := 0, k
